@@ -2,7 +2,7 @@
 evidence files, violation reports.  Exit codes: 0 held, 1 violation, 2 infrastructure error."""
 import os, sys, json, subprocess, time, re, shutil, random, hashlib, concurrent.futures as cf
 
-ROOT = '/verif'
+ROOT = os.environ.get('VERIF_ROOT', '/verif')      # a background run (vp run) works in its own snapshot
 BUILD = ROOT + '/.build'
 SPEC = ROOT + '/spec'
 REPO = os.environ.get('REPO', '/repo')
